@@ -101,7 +101,12 @@ def layer_rhs1d(ctx, configs=None):
     r = LayerResult('L-rhs1d')
     cases, lines = [], []
     cfgs = configs if configs is not None else [cfg1d.rand_config(ctx.rng) for _ in range(ctx.n(70, 1200))]
-    for cfg in cfgs:
+    for ic_, cfg in enumerate(cfgs):
+        if configs is None and ic_ % 4 == 1 and cfg['model'] in ('conv', 'burgers') and 'units' not in cfg:
+            cfg['prim'] = [[float(np.round(3 * x)) for x in cfg['prim'][0]]]; cfg['intdata'] = True
+            for side in ('bcL', 'bcR'):
+                if 'prim' in cfg[side]:
+                    cfg[side]['prim'] = [float(np.round(3 * x)) for x in cfg[side]['prim']]
         ok, b = impl.guarded(cfg1d.build, cfg)
         if not ok:
             r.cases += 1; r.disagreements.append(dict(what='build', input=cfg, reason='implementation raised', detail=b)); continue
